@@ -30,6 +30,13 @@ class FsSim:
     # ---- operations (each advances the clock)
     def write_main(self, mapping, fmt='json'):
         self.main = (self.tick(), dict(mapping), fmt)
+        if mapping:
+            self.last_main = (dict(mapping), fmt)
+
+    def restore_main(self):
+        """the policy file (back) with exactly the last non-empty text it had, at a newer time"""
+        m, fmt = getattr(self, 'last_main', ({'alpha': 'role:v1', 'beta': 'role:v1'}, 'json'))
+        self.main = (self.tick(), dict(m), fmt)
 
     def touch_main(self):
         if self.main:
